@@ -205,21 +205,37 @@ func ParseOperations(doc string) []OpInfo {
 				}
 				i++
 			}
-			for i < len(ts) && ts[i].s != "{" {
-				i++
-			}
+			i = skipToBody(ts, i)
 			ops = append(ops, op)
 			i = skipBraces(ts, i)
 		case t.k == 'n' && t.s == "fragment":
-			for i < len(ts) && ts[i].s != "{" {
-				i++
-			}
+			i = skipToBody(ts, i)
 			i = skipBraces(ts, i)
 		default:
 			i++
 		}
 	}
 	return ops
+}
+
+// skipToBody advances to the `{` of the selection set, skipping parenthesised argument lists
+// (directive arguments may contain object literals).
+func skipToBody(ts []tok, i int) int {
+	d := 0
+	for i < len(ts) {
+		switch ts[i].s {
+		case "(":
+			d++
+		case ")":
+			d--
+		case "{":
+			if d <= 0 {
+				return i
+			}
+		}
+		i++
+	}
+	return i
 }
 
 func skipBraces(ts []tok, i int) int {
